@@ -75,7 +75,10 @@ func (c *Cursor) Last() (key []byte, value []byte) {
 	// If this is an empty page (calling Delete may result in empty pages)
 	// we call prev to find the last page that is not empty
 	for len(c.stack) > 1 && c.stack[len(c.stack)-1].count() == 0 {
-		c.prev()
+		// prev skips empty pages; a nil key means that there is no element at all.
+		if k, _, _ := c.prev(); k == nil {
+			return nil, nil
+		}
 	}
 
 	if len(c.stack) == 0 {
@@ -213,6 +216,9 @@ func (c *Cursor) last() {
 // next moves to the next leaf element and returns the key and value.
 // If the cursor is at the last leaf element then it stays there and returns nil.
 func (c *Cursor) next() (key []byte, value []byte, flags uint32) {
+	// The position before leaving the current page. If only empty pages
+	// follow then the cursor has to stay where it was.
+	var orig []elemRef
 	for {
 		// Attempt to move over one element until we're successful.
 		// Move up the stack as we hit the end of each page in our stack.
@@ -228,7 +234,14 @@ func (c *Cursor) next() (key []byte, value []byte, flags uint32) {
 		// If we've hit the root page then stop and return. This will leave the
 		// cursor on the last element of the last page.
 		if i == -1 {
+			if orig != nil {
+				c.stack = append(c.stack[:0], orig...)
+			}
 			return nil, nil, 0
+		}
+		if orig == nil && i < len(c.stack)-1 {
+			orig = append(orig, c.stack...)
+			orig[i].index--
 		}
 
 		// Otherwise start from where we left off in the stack and find the
@@ -249,6 +262,7 @@ func (c *Cursor) next() (key []byte, value []byte, flags uint32) {
 // prev moves the cursor to the previous item in the bucket and returns its key and value.
 // If the cursor is at the beginning of the bucket then a nil key and value are returned.
 func (c *Cursor) prev() (key []byte, value []byte, flags uint32) {
+retry:
 	// Attempt to move back one element until we're successful.
 	// Move up the stack as we hit the beginning of each page in our stack.
 	for i := len(c.stack) - 1; i >= 0; i-- {
@@ -276,6 +290,12 @@ func (c *Cursor) prev() (key []byte, value []byte, flags uint32) {
 
 	// Move down the stack to find the last element of the last leaf under this branch.
 	c.last()
+
+	// If this is an empty page (calling Delete may result in empty pages)
+	// then keep moving backwards, like next() skips empty pages forwards.
+	if c.stack[len(c.stack)-1].count() == 0 {
+		goto retry
+	}
 	return c.keyValue()
 }
 
